@@ -4,6 +4,7 @@ import S2T.Spec.Tables
 import S2T.Gen.Tables
 import S2T.Gen.HtmlSkip
 import S2T.Lemmas.TablesEpub
+import S2T.Lemmas.TablesEpubXml
 import S2T.Lemmas.TablesOds
 namespace S2T.Drv.C13
 open Lean S2T.Drv S2T.Tables
@@ -188,7 +189,15 @@ def render (j : Json) : Except String Json := do
       ("proper", Json.bool (doc.all Blk.rowsProper))]
   | "epub" =>
     let doc ← parseList parseEBlk d
+    -- "mask" (optional): which of the chapter's empty elements are written as `<t/>` (Props/C13_Xml.lean)
+    let mask := match j.getObjVal? "mask" with
+      | .ok (Json.arr a) => a.toList.map (fun b => b == Json.bool true)
+      | _ => []
+    let written := S2T.Tables.Epub.collapse mask (S2T.Tables.Epub.chapterItems doc)
     return Json.mkObj [("events", Json.arr ((S2T.Tables.Epub.chapterEvents doc).map evJson).toArray),
+      ("xml_events", Json.arr ((S2T.HtmlSkip.events written).map S2T.Drv.C17.jEv).toArray),
+      ("xml_tables", gridsJson (S2T.HtmlSkip.run S2T.Gen.HtmlSkip.epubTables (S2T.HtmlSkip.Epub.down S2T.Gen.HtmlSkip.epubBlock)
+        (S2T.HtmlSkip.init S2T.HtmlSkip.Epub.initState) (S2T.HtmlSkip.events written)).down.tables),
       ("spec", gridsJson (doc.flatMap S2T.Tables.Epub.EBlk.tables)),
       ("proper", Json.bool (doc.all S2T.Tables.Epub.EBlk.proper))]
   | other => throw s!"unknown format {other}"
